@@ -284,7 +284,7 @@ func c12o2(c *core.Ctx) {
 					case "Duration", "Hour", "Minute", "Second", "Millisecond", "Microsecond", "Nanosecond":
 						c.OK("C12/O2", sym+" at "+c.At(sel.Pos()), c.At(sel.Pos()), "type/constant")
 					case "Now", "Since":
-						if fn != nil && fn.Name == "storage.Shrink" {
+						if fn != nil && hasDurationParam(fn) {
 							c.OK("C12/O2", sym+" in "+fn.Name, c.At(sel.Pos()), "documented time box of Shrink: a time-limited call may stop earlier or later")
 						} else {
 							name := "?"
@@ -378,6 +378,9 @@ func c12o4(c *core.Ctx) {
 // c12o5: positive control.
 func c12o5(c *core.Ctx) {
 	dir := os.Getenv("ARKCHECK_TESTDATA")
+	if dir == "" && VerifDir != "" {
+		dir = filepath.Join(VerifDir, "checker", "testdata")
+	}
 	if dir == "" {
 		exe, _ := os.Executable()
 		dir = filepath.Join(filepath.Dir(filepath.Dir(exe)), "checker", "testdata")
@@ -417,4 +420,17 @@ func c12o5(c *core.Ctx) {
 	} else {
 		c.Undecide("C12/O5", "positive control", fmt.Sprintf("control expected 2 flagged / 1 clean map ranges, got %d / %d: the map-range rule is broken", flagged, clean))
 	}
+}
+
+// hasDurationParam: the function receives its time budget as a time.Duration parameter (the documented Shrink time box).
+func hasDurationParam(f *core.Func) bool {
+	if f.Sig == nil {
+		return false
+	}
+	for i := 0; i < f.Sig.Params().Len(); i++ {
+		if f.Sig.Params().At(i).Type().String() == "time.Duration" {
+			return true
+		}
+	}
+	return false
 }
